@@ -557,9 +557,17 @@ func (w *world) cookie(out *bufio.Writer, kinds map[string]int) {
 		case x < 65:
 			kinds["c-ack-near"]++
 			d = []uint32{1, 2, 3, 4, 5, 0xffffffff, 0xfffffffe}[w.r.Intn(7)]
-		default:
+		case x < 82:
 			kinds["c-ack-far"]++
 			d = uint32(3+w.r.Intn(250))<<24 | uint32(w.r.Intn(1<<24))
+		default:
+			// wrong only in the cookie's time-slot byte (bits 24..31) or by a single bit
+			kinds["c-ack-slot-bits"]++
+			if w.r.Intn(3) == 0 {
+				d = 1 << uint(2+w.r.Intn(30))
+			} else {
+				d = uint32(1+w.r.Intn(255)) << 24
+			}
 		}
 		seqd := uint32(0)
 		if w.r.Intn(5) == 0 {
